@@ -571,17 +571,29 @@ class GtkDocAnnotations(OrderedDict):
     (depending on the annotation name)or :const:`None`.
     '''
 
-    __slots__ = ('position')
+    __slots__ = ('position', 'positions')
 
     def __init__(self, *args, **kwargs):
         #: A :class:`giscanner.message.Position` instance specifying the location of the
         #: annotations in the source file or :const:`None`.
         self.position = kwargs.pop('position', None)
 
+        #: Maps annotation names to the :class:`giscanner.message.Position` of the line
+        #: they were found on (annotations can span multiple lines).
+        self.positions = {}
+
         OrderedDict.__init__(self, *args, **kwargs)
 
     def __copy__(self):
-        return GtkDocAnnotations(self, position=self.position)
+        new = GtkDocAnnotations(self, position=self.position)
+        new.positions = dict(self.positions)
+        return new
+
+    def copy(self):
+        return self.__copy__()
+
+    def position_of(self, ann_name):
+        return self.positions.get(ann_name, self.position)
 
 
 class GtkDocAnnotatable(object):
@@ -614,9 +626,8 @@ class GtkDocAnnotatable(object):
         '''
 
         if self.annotations:
-            position = self.annotations.position
-
             for ann_name, options in self.annotations.items():
+                position = self.annotations.position_of(ann_name)
                 if ann_name in self.valid_annotations:
                     validate = getattr(self, '_do_validate_' + ann_name.replace('-', '_'))
                     validate(position, ann_name, options)
@@ -1807,12 +1818,14 @@ class GtkDocCommentBlockParser(object):
                                           position, None, marker_pos, original_line)
                                 else:
                                     comment_block.annotations[ann_name] = docannotation
+                                    comment_block.annotations.positions[ann_name] = position
                     else:
                         ann_name, options = self._parse_annotation(position,
                                                                column_offset + tag_fields_start,
                                                                line,
                                                                '%s %s' % (ann_name, tag_fields))
                         comment_block.annotations[ann_name] = options
+                        comment_block.annotations.positions[ann_name] = position
 
                     continue
                 elif tag_name_lower == TAG_DESCRIPTION:
@@ -2191,6 +2204,7 @@ class GtkDocCommentBlockParser(object):
                                 error('multiple "%s" annotations:' % (name, ),
                                       position, None, column + i, line)
                             parsed_annotations[name] = options
+                            parsed_annotations.positions[name] = position
                             parsed_annotations_changed = True
                     else:
                         parsed_annotations.append(''.join(char_buffer).strip())
